@@ -64,6 +64,17 @@ type Plan struct {
 	Skip      int           `json:"skip"` // a prompt party skips an iteration with probability Skip/8 (never twice in a row)
 	SchedSeed uint64        `json:"sched_seed"`
 	MaxEons   int           `json:"max_eons"`
+	// SplitAll: every transaction a keyper broadcasts lands in a block of its own.
+	SplitAll bool `json:"split_all,omitempty"`
+	// Restart: this honest party processes one block per loop iteration and is restarted (its
+	// ShuttermintState, message sender, client and connections are thrown away, fresh ones built)
+	// right after the transaction of block start+After of the first eon of keyper set 1.
+	Restart *RestartSpec `json:"restart,omitempty"`
+}
+
+type RestartSpec struct {
+	Party int   `json:"party"`
+	After int64 `json:"after"`
 }
 
 func (p Plan) byz(i int) *Strategy {
@@ -159,6 +170,41 @@ func execute(plan Plan, servers *dkgrig.Servers) (*runLog, error) {
 		}
 		snapshot(i)
 		lastRan[i] = round
+	}
+	if plan.SplitAll {
+		lastTx := int64(0) // open height that already holds a keyper's transaction
+		rig.Chain.OnBroadcast = func(string, []byte) {
+			if rig.Chain.OpenHeight() == lastTx {
+				rig.Chain.NextBlock()
+			}
+			lastTx = rig.Chain.OpenHeight()
+		}
+	}
+	restarted := false
+	// stepIterate lets the party catch up one block per loop iteration and restarts it once, after
+	// the block the plan names
+	stepIterate := func(i, round int) {
+		for guard := 0; guard < 60; guard++ {
+			before, _ := rig.SyncPos(i)
+			rig.Parties[i].Cl.Cap = before + 3
+			iterate(i, round)
+			after, _ := rig.SyncPos(i)
+			if !restarted {
+				for _, e := range rig.Eons() {
+					if e.CfgIdx == 1 && after >= e.Start+plan.Restart.After {
+						restarted = true
+						if err := rig.Restart(i); err != nil {
+							lg.errs = append(lg.errs, fmt.Sprintf("party %d: restart: %v", i, err))
+						}
+						break
+					}
+				}
+			}
+			if after == before || after+2 >= rig.Chain.Height() {
+				break
+			}
+		}
+		rig.Parties[i].Cl.Cap = 0
 	}
 	threshold := func() uint64 { return uint64(plan.P.T) }
 	addr := func(party int) common.Address { return rig.Parties[party].Addr }
@@ -325,7 +371,11 @@ func execute(plan Plan, servers *dkgrig.Servers) (*runLog, error) {
 			} else if plan.Skip > 0 && lastRan[i] == round-1 && rng.Chance(plan.Skip, 8) {
 				continue
 			}
-			iterate(i, round)
+			if plan.Restart != nil && plan.Restart.Party == i {
+				stepIterate(i, round)
+			} else {
+				iterate(i, round)
+			}
 		}
 		rig.Chain.NextBlock()
 		// stop when the newest eon is past finalisation for a while and nothing new started
@@ -882,6 +932,19 @@ func randomPlan(r *vh.RNG) Plan {
 		p.Byz = append(p.Byz, s)
 	}
 	p.MaxEons = 1 + r.Intn(2)
+	if r.Chance(1, 5) {
+		// restart an honest, prompt party somewhere in the first eon
+		var hon []int
+		for _, m := range p.Members {
+			if p.byz(m) == nil && !p.slow(m) {
+				hon = append(hon, m)
+			}
+		}
+		if len(hon) > 0 {
+			p.SplitAll = r.Chance(1, 2)
+			p.Restart = &RestartSpec{Party: hon[r.Intn(len(hon))], After: int64(r.Intn(int(3*L) + 2))}
+		}
+	}
 	return p
 }
 
@@ -932,6 +995,16 @@ func forcedPlans() []Plan {
 			mk(func(s *Strategy) { s.Order = ord; s.Evals[1] = "none"; s.TDeal = "late" }),
 		)
 	}
+	// all honest, every transaction alone in its block, one keyper processes block by block and is
+	// restarted after the k-th block of the first eon (k over the dealing phase and a bit beyond)
+	for party := 0; party < 2; party++ {
+		for k := int64(1); k <= 16; k++ {
+			q := honestPlan(3, 2, 14, uint64(400+16*party)+uint64(k))
+			q.SplitAll = true
+			q.Restart = &RestartSpec{Party: party, After: k}
+			out = append(out, q)
+		}
+	}
 	// a slow honest party
 	p := honestPlan(3, 2, 6, 300)
 	p.Slow = []int{1}
@@ -969,7 +1042,7 @@ func main() {
 	run := vh.Start("Verif.Corr.C07", 12)
 	run.SetPreamble("From Verif Require Import Model.DKGPure Model.DKGDriver.\nOpen Scope N_scope.")
 	defer run.Finish()
-	run.Rule = "complete DKG runs on n real keyper stacks (smobserver, fx message sender, puredkg, ECIES, one pgfake database each) over tmfake around the real shuttermint app; Byzantine parties from the alphabet eval {correct, wrong, none} per victim x commitment {correct, none, wrong degree, duplicate} x order of the two dealing messages {commitment first, evaluations first, evaluations a block earlier} x accusation subsets x apology {correct, wrong, none, unasked} x timing {in phase, late, early} x vote; slow honest parties; permuted / partial keyper sets; forced: all-honest n=3..5, each single deviation for n=3,t=2, a failing DKG with restart; thorough: the exhaustive one-Byzantine tables for n=3,t=2 (both message orders), n=4,t=2 and n=4,t=3; non-trivial = a Byzantine or slow party took part and at least one honest keyper finished the DKG; distinct by the JSON rendering of the plan"
+	run.Rule = "complete DKG runs on n real keyper stacks (smobserver, fx message sender, puredkg, ECIES, one pgfake database each) over tmfake around the real shuttermint app; Byzantine parties from the alphabet eval {correct, wrong, none} per victim x commitment {correct, none, wrong degree, duplicate} x order of the two dealing messages {commitment first, evaluations first, evaluations a block earlier} x accusation subsets x apology {correct, wrong, none, unasked} x timing {in phase, late, early} x vote; slow honest parties; permuted / partial keyper sets; forced: all-honest n=3..5, each single deviation for n=3,t=2, a failing DKG with restart, all-honest runs with every transaction alone in its block and one keyper restarted after the k-th block of the eon (k = 1..16, two parties); thorough: the exhaustive one-Byzantine tables for n=3,t=2 (both message orders), n=4,t=2 and n=4,t=3; non-trivial = a Byzantine or slow party took part and at least one honest keyper finished the DKG; distinct by the JSON rendering of the plan"
 
 	var plans []Plan
 	if run.Replay != "" {
